@@ -27,6 +27,7 @@ def run(repo, run, tier):
     values(repo, run, cm)
     aliasing(repo, run, cm)
     early_return(repo, run, cm)
+    settings_reach_integrator(repo, run, cm)
 
 
 def _integrate_writes(cm):
@@ -233,3 +234,45 @@ def early_return(repo, run, cm):
     run.judged(rid, "statements before the early return that write state or call methods: %d" % len(writes), ok=not writes)
     for n in writes[:1]:
         run.report("C13.4", DS, n, "system state is written (or a method is called) before the early return for a call made at the target")
+
+
+def settings_reach_integrator(repo, run, cm):
+    """results do not depend on call history: a system whose tolerance was CHANGED to X must behave like one CONSTRUCTED with X.  Integrators take their
+    tolerances at construction and some keep copies (the Richardson wrapper stores them in its controller's solver_dict and builds its base integrators
+    with them), so a changed tolerance reaches all of them only if the setter rebuilds the integrator."""
+    rid = run.rule("C13.5", "the rtol / atol setters of OdeSystem store the value and then rebuild the integrator (initialise_integrator): integrators copy the "
+                            "tolerances at construction (verified: constructor stores them in solver_dict / hands them to sub-integrators), so an in-place update "
+                            "of the live integrator would leave those copies stale", floor=3)
+    ITY = "desolver/integrators/integrator_types.py"
+    # fact: some integrator constructor snapshots the tolerances
+    snap = []
+    for q, fn in repo.functions(ITY):
+        if not q.endswith(".__init__"):
+            continue
+        for st in ast.walk(fn):
+            if isinstance(st, ast.Assign) and any(is_self_attr(t, "solver_dict") for t in st.targets):
+                kws = {}
+                v = st.value
+                if isinstance(v, ast.Call) and dotted(v.func) == "dict":
+                    kws = {k.arg: src(k.value) for k in v.keywords if k.arg}
+                elif isinstance(v, ast.Dict):
+                    kws = {k.value: src(val) for k, val in zip(v.keys, v.values) if isinstance(k, ast.Constant)}
+                if kws.get("rtol") == "self.rtol" or kws.get("atol") == "self.atol":
+                    snap.append((q, "solver_dict"))
+            if isinstance(st, ast.Call) and any(k.arg is None and src(k.value) == "kwargs" for k in st.keywords) and "basis_integrator" in src(st.func):
+                snap.append((q, "base integrators built from the constructor's kwargs"))
+    run.judged(rid, "integrator constructors that keep copies of the tolerances: %s" % sorted(set(snap)), ok=True, nontrivial=bool(snap))
+    if not snap:
+        return      # nothing keeps a copy: an in-place update would be enough, the rule has nothing to require
+    for attr in ("rtol", "atol"):
+        st_fn = cm.methods.get(attr + "@setter") or repo.maybe(DS, "OdeSystem.%s@setter" % attr)
+        if st_fn is None:
+            raise AnalysisError("OdeSystem.%s setter not found" % attr)
+        stores = [st for st in walk_no_nested(st_fn) if isinstance(st, ast.Assign) and any(is_self_attr(t, "__" + attr) for t in st.targets)]
+        rebuilds = [st for st in walk_no_nested(st_fn) if isinstance(st, ast.Expr) and isinstance(st.value, ast.Call) and dotted(st.value.func) == "self.initialise_integrator"]
+        ok = bool(stores) and bool(rebuilds) and all(isinstance(r._parent, ast.FunctionDef) for r in rebuilds[:1]) and path_key(stores[-1], st_fn) < path_key(rebuilds[0], st_fn)
+        run.judged(rid, "%s setter: store then initialise_integrator()" % attr, ok=ok)
+        if not ok:
+            run.report("C13.5", DS, st_fn, "the %s setter does not rebuild the integrator after storing the new value: integrators that copied the tolerance at construction (%s) keep "
+                                           "the old one, so a system whose tolerance was changed behaves differently from one constructed with that tolerance (and differently "
+                                           "before and after reset())" % (attr, "; ".join("%s: %s" % s_ for s_ in sorted(set(snap))[:2])), text="%s setter rebuild" % attr)
